@@ -21,6 +21,7 @@ use tokio_util::task::TaskTracker;
 use tracing::{debug, info, instrument, warn};
 
 const DEFAULT_CONNECTION_TIMEOUT: Duration = Duration::from_secs(10);
+const ACCEPT_ERROR_BACKOFF: Duration = Duration::from_millis(50);
 
 // the server listener
 pub struct Listener<Stat, Disc, Filt, Stra, Auth, Loca> {
@@ -120,7 +121,16 @@ where
                     info!("stopping listener");
                     break;
                 },
-                accepted = listener.accept() => accepted?,
+                accepted = listener.accept() => match accepted {
+                    Ok(accepted) => accepted,
+                    Err(err) => {
+                        // a single connection that cannot be accepted (e.g. no free file descriptor or
+                        // a reset in the accept queue) must not stop the listener for everyone else
+                        warn!(cause = err.to_string(), "failed to accept connection");
+                        tokio::time::sleep(ACCEPT_ERROR_BACKOFF).await;
+                        continue;
+                    }
+                },
             };
             self.handle(stream, addr);
         }
